@@ -782,6 +782,8 @@ class SymEx:
                     if c.kind in ('fall', 'cont'):
                         self.eval(c.state, s.k[2])
             wl = self.writelog
+            live1 = [c for c in comps1 if c.kind in ('fall', 'cont')]
+            merged1 = self.merge([c.state for c in live1], s1.pc) if live1 else None
         finally:
             self.writelog = oldlog
         if oldlog is not None:
@@ -810,9 +812,11 @@ class SymEx:
             pre = ('pre', ls.id, label)
             pres[(root, fpath)] = (label, pre)
             try:
+                # the placeholder keeps the size only if one pass over the body does not change it
                 cur0 = self.read(st, ('lv', root, fpath))
                 sz = size(cur0)
-                if not (isinstance(sz, tuple) and sz[0] == 'size' and sz[1] == cur0):
+                same = merged1 is not None and size(self.read(merged1, ('lv', root, fpath))) == sz
+                if same and not (isinstance(sz, tuple) and sz[0] == 'size' and sz[1] == cur0):
                     T.SIZES[pre] = sz
             except Exception:
                 pass
@@ -1008,7 +1012,7 @@ class SymEx:
             info['final'] = ('vaccum', info['init'], isym, lo, hi, nxt)
             return
         if isinstance(nxt, tuple) and nxt[0] == 'vcomp' and nxt[1] == pre and \
-                not any(occurs(x, pre) for x in nxt[2:]):
+                not any(occurs(x, pre) for x in nxt[2:] if isinstance(x, tuple)):
             # an inner loop appends a whole run per outer iteration
             info['kind'] = 'append2'
             info['inner'] = (nxt[2], nxt[3], nxt[4])
@@ -1084,6 +1088,15 @@ class SymEx:
         if isinstance(nxt, tuple):
             if nxt[0] == 'vpush' and nxt[1] == pre and not occurs(nxt[2], pre):
                 return (TRUE, nxt[2])
+            if nxt[0] == 'vpush':
+                # several push_backs per iteration: vpush(vpush(pre, a), b)
+                vals = []
+                cur = nxt
+                while isinstance(cur, tuple) and cur and cur[0] == 'vpush':
+                    vals.append(cur[2])
+                    cur = cur[1]
+                if cur == pre and len(vals) > 1 and not any(occurs(v, pre) for v in vals):
+                    return (TRUE, ('tuple',) + tuple(reversed(vals)))
             if nxt[0] == 'ite' and not occurs(nxt[1], pre):
                 if nxt[3] == pre:
                     m = self.match_push(nxt[2], pre)
